@@ -23,6 +23,16 @@ func (x02) Gen(tier string, seed int64, emit func([]Ev)) {
 			emit([]Ev{{"op": "setafc", "before": B(p[:]), "v": v, "kind": kind}})
 		}
 	})
+	// more packets that gain an adaptation field (payload-only, arbitrary payload bytes)
+	for k := 0; k < 12*per; k++ {
+		var p packet.Packet
+		r.Read(p[:])
+		p[0], p[3] = 0x47, p[3]&0x0f|0x10
+		for v := 2; v <= 3; v++ {
+			emit([]Ev{{"op": "setafc", "before": B(p[:]), "v": v, "kind": "payload-only"}})
+		}
+	}
+	emit([]Ev{{"op": "newaf", "v": 2, "kind": "new"}})
 	// adaptation fields of length 183 that are completely full (cannot shrink)
 	for k := 0; k < 20*per; k++ {
 		a := absAF{Len: 183, HasTPD: true, TPD: rndBytes(r, 181)}
@@ -39,6 +49,15 @@ func (x02) Gen(tier string, seed int64, emit func([]Ev)) {
 func (x02) Exec(h []Ev) []Ev {
 	for _, e := range h {
 		e["err"] = "nil"
+		if GS(e["op"]) == "newaf" {
+			// NewAdaptationField() = New() with the control bits set to "adaptation field only"
+			e["panic"] = guard(func() {
+				e["before"] = B(packet.New()[:])
+				af := packet.NewAdaptationField()
+				e["after"] = B(af[:])
+			})
+			continue
+		}
 		e["panic"] = guard(func() {
 			var p packet.Packet
 			copy(p[:], GB(e["before"]))
@@ -52,6 +71,9 @@ func (x02) Exec(h []Ev) []Ev {
 }
 
 func (x02) Class(e Ev) string {
+	if GS(e["op"]) == "newaf" {
+		return "newaf"
+	}
 	b := GB(e["before"])
 	return fmt.Sprintf("setafc/%s/from%d/to%d/%s", GS(e["kind"]), b[3]>>4&3, GI(e["v"]), GS(e["err"]))
 }
